@@ -190,6 +190,20 @@ func doParseMode(src interface{}, fs *file.FileSet, mode parser.Mode) (out parse
 	return
 }
 
+// doParseFunction feeds a text to parser.ParseFunction as parameter list or body.
+func doParseFunction(params, body string) (fn *ast.FunctionLiteral, errStr, panicked string) {
+	defer func() {
+		if x := recover(); x != nil {
+			panicked = fmt.Sprintf("%T: %v", x, x)
+		}
+	}()
+	f, err := parser.ParseFunction(params, body)
+	if err != nil {
+		errStr = err.Error()
+	}
+	return f, errStr, ""
+}
+
 type runOut struct {
 	panicked string
 	val, err string
@@ -475,6 +489,20 @@ func (e rfEngine) Exec(ci interface{}, st *Stats) (*Violation, interface{}, bool
 		}
 		if n > 0 && n < len(T) {
 			st.NonTrivial++
+		}
+		// the same prefix as the body and as the parameter list of ParseFunction:
+		// an accepted body must also be accepted as a program wrapped in a function
+		if fn, ferr, fp := doParseFunction("a,b", string(prefix)); fp != "" {
+			return fail("parse_panic", "parse-panic", rc, "ParseFunction panicked with the %d-byte prefix as body: %s", n, fp)
+		} else if ferr == "" && fn != nil {
+			wrapped := doParse("(function(a,b){\n" + string(prefix) + "\n})")
+			if wrapped.panicked == "" && wrapped.errStr != "" {
+				return fail("parsefunction_accepts_rejected_body", "", rc, "ParseFunction accepts the %d-byte prefix as a function body, the parser rejects the same text inside a function expression: %s", n, clip(wrapped.errStr))
+			}
+			st.Probe("parsefunction_body_accepted")
+		}
+		if _, _, fp := doParseFunction(string(prefix), "return 1"); fp != "" {
+			return fail("parse_panic", "parse-panic", rc, "ParseFunction panicked with the %d-byte prefix as parameter list: %s", n, fp)
 		}
 		// the same prefix with comments recorded: same verdict, same errors, a
 		// well-formed tree, and every recorded comment lies inside the input
